@@ -777,11 +777,18 @@ func (d *dgen) program() []*gfunc {
 // native on their parameters; the argument tuples are drawn from the pools of border values, so each native sees
 // a few dozen border combinations in every run whatever the PRNG does to the other programs.
 
-const numSweeps = 7
+const numSweeps = 11 // 7 native sweeps + 4 update sweeps (updateProgram: ints / strings and loops, plain / spelled constants)
 
 func (d *dgen) sweepProgram(k int) []*gfunc {
 	d.pre, d.nconst, d.ntype = nil, 0, 0
 	d.intTy, d.strTy = "int", "string"
+	if k%numSweeps >= 7 {
+		fs := d.updateProgram((k%numSweeps-7)/2 == 0, (k%numSweeps-7)%2 == 1)
+		if len(d.pre) > 0 {
+			fs[0].src = strings.Join(d.pre, "\n") + "\n\n" + fs[0].src
+		}
+		return fs
+	}
 	d.note("data:native-sweep")
 	ps := func(n string) gvar { return gvar{name: n, ty: gStr} }
 	pi := func(n string) gvar { return gvar{name: n, ty: gInt} }
@@ -876,5 +883,134 @@ func (d *dgen) sweepProgram(k int) []*gfunc {
 		add(gStr, []gvar{ps("p0"), ps("p1"), pi("p2")}, "fmt.Sprintf(p0, p1, p2)", 20, format, sstr, sint)
 		add(gStr, []gvar{ps("p0"), pi("p1"), ps("p2"), pi("p3")}, "fmt.Sprintf(p0, p1, p2, p3)", 16, format, sint, sstr, sint)
 	}
+	return fs
+}
+
+// ---------------------------------------------------------------- update sweeps
+// Assignments whose right-hand side mentions the assigned local: `x = c op x`, `x = x op c`, `x = x op x`, `x = x op y`,
+// `x = y op x` for every binary operator of the type, the constants 0, 1, -1, 2 (the operands an "optimised" spelling of an
+// assignment -- increment, decrement, no-op, doubling, negation -- would look for) on EITHER side of the operator, with and
+// without parentheses, as plain decimal literals in one program and under random spellings (hex, named constant, folded
+// expression, ...) in another; the same right-hand sides assigned to ANOTHER local; the idioms in loops (toggle `x = 1 - x`,
+// countdown, accumulation, alternating sign). One statement is selected by an int parameter (eight statements per function),
+// the argument tuples enumerate every statement x a few start values, so every run executes every form whatever the PRNG does.
+func (d *dgen) updateProgram(ints, spelled bool) []*gfunc {
+	d.note("data:update-sweep")
+	num := func(c int64) string {
+		if spelled {
+			return d.num(c)
+		}
+		return strconv.FormatInt(c, 10)
+	}
+	str := func(c string) string {
+		if spelled {
+			return d.str(c)
+		}
+		return strconv.Quote(c)
+	}
+	par := func(x string) string {
+		if d.r.Intn(3) == 0 {
+			return "(" + x + ")"
+		}
+		return x
+	}
+	var fs []*gfunc
+	const perFunc = 8
+	// selector: one function per perFunc statements; p1 selects the statement
+	selector := func(stmts []string, res gty, p0ty, prologue, epilogue string, starts []argval) {
+		for lo := 0; lo < len(stmts); lo += perFunc {
+			hi := lo + perFunc
+			if hi > len(stmts) {
+				hi = len(stmts)
+			}
+			f := &gfunc{name: fmt.Sprintf("qf%d", len(fs)), res: res, params: []gvar{{name: "p0", ty: starts[0].ty}, {name: "p1", ty: gInt}}}
+			var b fbuf
+			b.l("func %s(p0 %s, p1 int) %s {", f.name, p0ty, res.String())
+			b.l("%s", prologue)
+			for k, st := range stmts[lo:hi] {
+				b.l("\tif p1 == %d {\n\t\t%s\n\t}", k, st)
+			}
+			b.l("%s", epilogue)
+			b.l("}")
+			f.src = b.String()
+			for k := range stmts[lo:hi] {
+				for _, a := range starts {
+					f.tuples = append(f.tuples, []argval{a, aI(int64(k))})
+				}
+			}
+			f.tuples = append(f.tuples, []argval{starts[0], aI(-1)})
+			fs = append(fs, f)
+		}
+	}
+
+	if ints {
+		var stmts []string
+		for _, op := range []string{"+", "-"} {
+			for _, c := range []int64{0, 1, -1, 2} {
+				stmts = append(stmts,
+					fmt.Sprintf("v0 = %s %s %s", par(num(c)), op, par("v0")),
+					fmt.Sprintf("v0 = %s %s %s", par("v0"), op, par(num(c))),
+					fmt.Sprintf("v0 = (%s %s v0)", num(c), op),
+					fmt.Sprintf("v1 = %s %s v0", num(c), op),
+					fmt.Sprintf("v1 = v0 %s %s", op, num(c)),
+					fmt.Sprintf("v0 = %s %s v1", num(c), op),
+					fmt.Sprintf("v0 = v1 %s %s", op, num(c)))
+			}
+			stmts = append(stmts,
+				fmt.Sprintf("v0 = v0 %s v0", op), fmt.Sprintf("v0 = v0 %s v1", op), fmt.Sprintf("v0 = v1 %s v0", op),
+				fmt.Sprintf("v0 = p0 %s v0", op), fmt.Sprintf("v0 = v0 %s p0", op), fmt.Sprintf("v1 = v1 %s v0", op),
+				fmt.Sprintf("v0 = %s %s v0 %s %s", num(1), op, op, num(1)), fmt.Sprintf("v0 = %s %s (v0 %s %s)", num(1), op, op, num(1)),
+				fmt.Sprintf("v0 = v0 %s %s %s v0", op, num(1), op))
+		}
+		stmts = append(stmts, "v0 = v0", "v0 = (v0)", "v0 = v1", "v1 = v0", "v0 = "+num(0)+" - (0 - v0)", "v0 = len(\"x\") - v0",
+			"v0 = "+num(1)+" - v0\n\t\tv0 = "+num(1)+" - v0", "v0 = v0 - "+num(1)+"\n\t\tv0 = "+num(1)+" + v0", "v0++", "v0--")
+		selector(stmts, gInt, "int", "\tv0 := p0\n\tv1 := p0 + 10", "\treturn v0 + v1 + v1",
+			[]argval{aI(0), aI(1), aI(-1), aI(2), aI(7), aI(math.MaxInt64), aI(math.MinInt64)})
+		return fs
+	}
+
+	// ---- strings
+	var sst []string
+	for _, c := range []string{"", "a", "ab"} {
+		sst = append(sst,
+			fmt.Sprintf("v0 = %s + %s", par(str(c)), par("v0")), fmt.Sprintf("v0 = %s + %s", par("v0"), par(str(c))),
+			fmt.Sprintf("v1 = %s + v0", str(c)), fmt.Sprintf("v1 = v0 + %s", str(c)),
+			fmt.Sprintf("v0 = %s + v1", str(c)), fmt.Sprintf("v0 = v1 + %s", str(c)),
+			fmt.Sprintf("v0 = %s + v0 + %s", str(c), str(c)))
+	}
+	sst = append(sst, "v0 = v0 + v0", "v0 = v0 + v1", "v0 = v1 + v0", "v0 = p0 + v0", "v0 = v0 + p0", "v1 = v1 + v0", "v0 = v0", "v0 = (v0)",
+		"v0 = v0[1:]", "v0 = v0[:1]", "v0 = v0[:len(v0)-1]", "v0 = v0[len(v0)-1:]", "v0 = v0[:]", "v0 = v0[0:len(v0)]", "v0 = v0[1:] + v0[:1]",
+		"v0 = v1\n\t\tv1 = v0", "v0 = v0 + strconv.Itoa(len(v0))")
+	selector(sst, gStr, "string", "\tv0 := p0\n\tv1 := p0 + \"|\"", "\treturn v0 + \"/\" + v1", []argval{aS(""), aS("a"), aS("xyz"), aS("a\x00é")})
+
+	// ---- the idioms in loops: p1 selects the loop, p0 is the number of rounds
+	loops := []string{
+		"v0 = " + num(1) + " - v0",                       // toggle 0 / 1
+		"v0 = " + num(0) + " - v0",                       // alternating sign
+		"v0 = v0 + v2\n\t\t\tv0 = " + num(-1) + " - v0", // ... of a growing value
+		"v0 = v0 + v0\n\t\t\tv0 = v0 + " + num(1),       // doubling
+		"v0 = " + num(2) + " + v0\n\t\t\tv3 = v0 - v3",  // two locals updating from each other
+		"v3 = v3 - " + num(1) + "\n\t\t\tv0 = v0 - v3",  // countdown feeding an accumulator
+		"v0 = v3\n\t\t\tv3 = " + num(1) + " + v0",       // value handed back and forth
+		"if v0 == " + num(0) + " {\n\t\t\t\tv0 = " + num(1) + " - v0\n\t\t\t} else {\n\t\t\t\tv0 = v0 - " + num(1) + "\n\t\t\t}",
+	}
+	f := &gfunc{name: fmt.Sprintf("qf%d", len(fs)), res: gInt, params: []gvar{{name: "p0", ty: gInt}, {name: "p1", ty: gInt}}}
+	var b fbuf
+	b.l("func %s(p0 int, p1 int) int {", f.name)
+	b.l("\tv0 := p1 - p1")
+	b.l("\tv3 := p0")
+	b.l("\tv2 := 0")
+	for k, body := range loops {
+		b.l("\tif p1 == %d {\n\t\tfor v2 < p0 {\n\t\t\t%s\n\t\t\tv2 = v2 + 1\n\t\t}\n\t}", k, body)
+	}
+	b.l("\treturn v0 + v3 + v3 + v3")
+	b.l("}")
+	f.src = b.String()
+	for k := range loops {
+		for a := int64(0); a <= 5; a++ {
+			f.tuples = append(f.tuples, []argval{aI(a), aI(int64(k))})
+		}
+	}
+	fs = append(fs, f)
 	return fs
 }
